@@ -449,12 +449,14 @@ class Server:
             t = payload[0] if payload else -1
             if t == wire.MSG_GEX_REQUEST and kex_alg in GEX_NAMES:
                 mn, pref, mx = struct.unpack('>III', payload[1:13]) if len(payload) >= 13 else (0, 0, 0)
-                bits = self.gex.choose(mn, pref, mx) if self.gex else None
+                # one moduli policy for every group-exchange algorithm, or a dict {algorithm: policy}
+                gexp = self.gex.get(kex_alg) if isinstance(self.gex, dict) else self.gex
+                bits = gexp.choose(mn, pref, mx) if gexp else None
                 rec['gex_requests'].append((mn, pref, mx, bits))
                 if bits is None:
                     yield ('close',)
                     return
-                gt = wire.packet_tree(wire.gex_group_tree(self._gex_prime(bits), self.gex.g))
+                gt = wire.packet_tree(wire.gex_group_tree(self._gex_prime(bits), gexp.g))
                 yield ('send', wire.serialize(gt), 'gex_group', gt)
             elif t == wire.MSG_GEX_INIT and kex_alg in GEX_NAMES:
                 rec['kex_inits'] += 1
